@@ -67,6 +67,8 @@ WRITERS = [
     ["->", ["==", H0, T("1")], ["=", ["v", "w"], [], H1]],
     ["->", ["==", H0, T("1")], ["=", ["v", "p2"], [], fn("pop", [], [T("s")])]],
     ["->", ["==", H1, T("9")], ["=", ["v", "p3"], [], fn("pop", [], [T("s")])]],
+    ["=", ["v", "seen"], [], fn("sum", ["tot", "onmatch"], [H1])],
+    ["=", ["v", "seen2"], [], fn("sum", ["tot2"], [H1])],
     ["=", ["v", "lt", "a"], ["latch"], H0],
     ["=", ["v", "lt", "b"], ["latch"], H1],
     ["=", ["v", "mx", "k"], ["increase"], H1],
@@ -81,6 +83,8 @@ EVERY_VARS = {"ev", "eb", "ev_every", "eb_every"}  # layout not asserted: docs/f
 def written_var(w):
     """name of the (named) variable a writer component maintains, or None."""
     if w[0] == "=":
+        if w[3][0] == "f" and "onmatch" in w[3][2]:
+            return None  # the value of an onmatch function is only settled once the rest of the line has voted: not read mid-line
         return w[1][1]
     if w[0] == "->":
         return written_var(w[2])
